@@ -11,7 +11,7 @@ dominated by the false-edge of the block-root comparison, fed with one ChangesLi
 the block changes and the execution changes, and the broadcast is dominated by the commit's
 ok-edge and is the only send on the importer's broadcast channel; (4) who-may-call for the
 commit; (5) the single-permit try-lock dominates both public entry points; (6) block fields are
-verified before validation, genesis consensus is rejected before execution. The permit taken by lock() stays bound to a live guard until the submitted prepare/commit work has returned (no release point — MIR drop of the holder — on a path to those calls).
+verified before validation, genesis consensus is rejected before execution. The permit taken by lock() stays bound to a live guard until the submitted prepare/commit work has returned (no release point — MIR drop of the holder — on a path to those calls). The flag returned by store_new_block accumulates (`found |= ..` for every later update); a missing latest height on the non-genesis arm reaches an ok_or error and is never defaulted before `latest + 1`.
 """
 NOT_DECIDED = """Behaviour under real concurrency beyond the lock discipline; height order of
 notifications follows from (1)+(3)+(5) but is not model-checked; values (roots, heights)."""
